@@ -15,6 +15,8 @@ pub open spec fn proposer_applied<C: ContentAddrStore>(s: UnsealedState<C>, a: P
     &&& r.network == s.network && r.height == s.height && r.history == s.history && r.transactions == s.transactions
     &&& r.dosc_speed == s.dosc_speed && r.pools == s.pools && r.stakes == s.stakes
 }
+/// state invariant assumed: the reward pseudo-coin of the block being built does not exist yet (a height is sealed once)
+pub open spec fn reward_fresh<C: ContentAddrStore>(s: UnsealedState<C>) -> bool { !s.coins@.coins.contains_key(spec_proposer_reward(s.height)) }
 /// C09 envelopes of the TIP-909 subsidy step, on the state after melmint settlement
 pub open spec fn tip909_env<C: ContentAddrStore>(s: UnsealedState<C>) -> bool {
     s.height.0 < 950000 + 128 * 1_000_000 && s.pools@.contains_key(pk_mel_sym()) && s.fee_pool.0 + s.pools@[pk_mel_sym()].lefts <= u128::MAX
